@@ -31,6 +31,10 @@ CORPUS = [
     "nt_mxp_sim 2 3 5 2 7", "nt_mxp_sim 2 0 5 0 7", "nt_mxp_sim 2 0 5 0 8", "nt_mxp_sim 2 0 5 0 1", "nt_mxp_sim 2 3 5 0 7", "nt_mxp_sim 2 0 5 3 7",
     "nt_mxp_sim 2 3 5 2 8", "nt_mxp_sim 2 3 5 2 0", "nt_mxp_sim 2 3 5 2 -7", "nt_mxp_sim 2 -3 5 2 7", "nt_mxp_sim 2 3 5 -2 7", "nt_mxp_sim -2 3 -5 3 7",
     "nt_mxp_sim 7 3 5 2 7", "nt_mxp_sim e 1 15 1 7", "nt_mxp_sim 2 ff 5 1 7", "nt_mxp_sim 2 1 5 ff 7",
+    "nt_mxp_few 9 7", "nt_mxp_few 9 1", "nt_mxp_few -9 8", "nt_mxp_few 9 7 2 3", "nt_mxp_few 9 7 2 0", "nt_mxp_few 9 8 2 0", "nt_mxp_few 9 7 2 3 5 2",
+    "nt_mxp_few 9 7 2 0 5 2 3 4", "nt_mxp_few 9 7 2 3 5 0 3 4", "nt_mxp_few 9 7 2 3 5 2 3 0", "nt_mxp_few 9 7 2 0 5 0 3 0",
+    "nt_mxp_few 9 b 2 1 3 1 5 1 7 1 2 1 3 1 5 1 7 1", "nt_mxp_few 9 b 2 1 3 1 5 1 7 1 2 1 3 1 5 1 7 1 2 1", "nt_mxp_few 9 1 2 1 3 1 5 1 7 1 2 1 3 1 5 1 7 1 2 1",
+    "nt_mxp_few 9 b 2 3 3 0 5 ff 7 0 2 1 3 0 5 6 7 0", "nt_mxp_few 9 7 2 -3 5 2",
     "nt_mxp_crt 5 3 3 8 b 0", "nt_mxp_crt 5 3 3 7 a 0", "nt_mxp_crt 5 3 3 1 b 0", "nt_mxp_crt 5 3 3 7 1 0",
 ]
 
@@ -166,6 +170,20 @@ def gen(rng, w, cap, digs, n):
             e = -e
         bs = bases(rng, w, digs, m)
         out.append("nt_mxp_sim %s %s %s %s %s" % (hx(rng.choice(bs)), hx(b), hx(rng.choice(bs)), hx(e), hx(m)))
+    # 3c. bn_mxp_sim_few: every n in 0..9, zero exponents in every position, unequal lengths, every modulus class
+    for nn in (0, 1, 2, 3, 4, 5, 6, 7, 8, 9, 1, 2, 3, 8, 3, 8):
+        for rep in range(2):
+            m = modulus(rng, w, digs) if rng.chance(7, 8) else rng.choice([1, 2, 6, 0, -3, modulus(rng, w, digs, odd=False)])
+            bs = bases(rng, w, digs, m)
+            toks = []
+            zero_at = rng.below(nn) if nn and rep == 0 else -1
+            for i in range(nn):
+                lb = rng.choice([1, 2, 3, 8, 21, 33] + ([64, 65] if w * digs >= 65 else []))
+                b = exponent(rng, lb, rng.choice(KINDS))
+                if i == zero_at or rng.chance(1, 6):
+                    b = 0
+                toks += [hx(rng.choice(bs)), hx(b)]
+            out.append(" ".join(["nt_mxp_few", hx(rng.choice([0, 1, -5, rng.bits(w)])), hx(m)] + toks))
     # 4. random lines
     for _ in range(n):
         k = rng.below(10)
